@@ -124,10 +124,99 @@ func Strip(v ssa.Value) ssa.Value {
 			} else {
 				return v
 			}
+		case *ssa.Phi:
+			// a phi whose alternatives are correlated with an error phi tested right after the merge (the shape left by
+			// `x, err := helper(); if err != nil { return }` once helper is expanded): only the alternatives of the
+			// branch in which the value is used are feasible
+			if fe := FeasibleEdges(x); len(fe) == 1 {
+				v = fe[0]
+			} else {
+				return v
+			}
 		default:
 			return v
 		}
 	}
+}
+
+var (
+	feCache      = map[*ssa.Phi][]ssa.Value{}
+	feInProgress = map[*ssa.Phi]bool{}
+)
+
+func rawStrip(v ssa.Value) ssa.Value {
+	for {
+		switch x := v.(type) {
+		case *ssa.ChangeType:
+			v = x.X
+		case *ssa.MakeInterface:
+			v = x.X
+		case *ssa.ChangeInterface:
+			v = x.X
+		default:
+			return v
+		}
+	}
+}
+
+// FeasibleEdges returns the alternatives of p that can reach p's uses: if p's block ends in a test `e == nil` / `e != nil`
+// of a sibling phi e of the same block and every use of p lies only behind one of the two edges, the alternatives whose
+// e-alternative contradicts that edge are dropped.
+func FeasibleEdges(p *ssa.Phi) []ssa.Value {
+	if fe, ok := feCache[p]; ok {
+		return fe
+	}
+	if feInProgress[p] {
+		return p.Edges
+	}
+	feInProgress[p] = true
+	defer delete(feInProgress, p)
+	out := p.Edges
+	defer func() { feCache[p] = out }()
+	b := p.Block()
+	em := errMergeOf(b)
+	e := mergePhiOf(b)
+	if em == nil || e == nil || len(em.succ) != len(p.Edges) {
+		return out
+	}
+	refs := p.Referrers()
+	if refs == nil || len(*refs) == 0 {
+		return out
+	}
+	// which successor do all uses of p lie behind?
+	fn := b.Parent()
+	behind := -1
+	for si := 0; si < 2; si++ {
+		other := Edge{b, 1 - si}
+		n, all := 0, true
+		for _, u := range *refs {
+			if _, dbg := u.(*ssa.DebugRef); dbg || u.Block() == b {
+				continue
+			}
+			n++
+			// reachable without passing edge si (i.e. possibly through the other one)?
+			if ReachableAvoiding(fn, u, []Edge{{b, si}}, nil) {
+				all = false
+			}
+		}
+		_ = other
+		if n > 0 && all {
+			behind = si
+		}
+	}
+	if behind < 0 {
+		return out
+	}
+	var keep []ssa.Value
+	for i := range p.Edges {
+		if em.succ[i] < 0 || em.succ[i] == behind {
+			keep = append(keep, p.Edges[i])
+		}
+	}
+	if len(keep) > 0 {
+		out = keep
+	}
+	return out
 }
 
 // storesTo lists Store instructions whose address is exactly a.
@@ -222,6 +311,9 @@ func IsNilConst(v ssa.Value) bool {
 // calls (with receiver/args), constants, index/lookup, phi alternatives.
 // Two values with equal paths inside one function denote the same source
 // expression modulo SSA spilling; the string is used for identity-flow checks.
+// ParamNames gives parameters of reference-tree functions their reference names (set by the loader).
+var ParamNames = map[*ssa.Parameter]string{}
+
 func Path(v ssa.Value) string { return path(v, 0, map[ssa.Value]bool{}) }
 
 func path(v ssa.Value, depth int, seen map[ssa.Value]bool) string {
@@ -237,6 +329,9 @@ func path(v ssa.Value, depth int, seen map[ssa.Value]bool) string {
 	}
 	switch x := v.(type) {
 	case *ssa.Parameter:
+		if n, ok := ParamNames[x]; ok {
+			return n
+		}
 		return x.Name()
 	case *ssa.FreeVar:
 		return "free:" + x.Name()
@@ -265,6 +360,13 @@ func path(v ssa.Value, depth int, seen map[ssa.Value]bool) string {
 				parts = append(parts, path(e, depth+1, seen))
 			}
 			return "{" + strings.Join(parts, ", ") + "}"
+		}
+		// the target of a JSON decode is named by what was decoded, not by the variable's name (renaming a local must
+		// not change a provenance string)
+		if src := decodeSource(x); src != nil {
+			seen[v] = true
+			defer delete(seen, v)
+			return "json(" + path(src, depth+1, seen) + ")"
 		}
 		if x.Comment != "" {
 			return "local:" + x.Comment
@@ -316,7 +418,7 @@ func path(v ssa.Value, depth int, seen map[ssa.Value]bool) string {
 		seen[v] = true
 		defer delete(seen, v)
 		var alts []string
-		for _, e := range x.Edges {
+		for _, e := range FeasibleEdges(x) {
 			alts = append(alts, path(e, depth+1, seen))
 		}
 		sort.Strings(alts)
@@ -346,6 +448,33 @@ func path(v ssa.Value, depth int, seen map[ssa.Value]bool) string {
 }
 
 func shortQ(p *types.Package) string { return p.Name() }
+
+// decodeSource: a is passed (as &a) to exactly one encoding/json.Unmarshal call; returns the data argument.
+func decodeSource(a *ssa.Alloc) ssa.Value {
+	if a.Referrers() == nil {
+		return nil
+	}
+	var src ssa.Value
+	n := 0
+	for _, r := range *a.Referrers() {
+		mi, ok := r.(*ssa.MakeInterface)
+		if !ok || mi.Referrers() == nil {
+			continue
+		}
+		for _, u := range *mi.Referrers() {
+			if call, ok := u.(*ssa.Call); ok && !call.Call.IsInvoke() {
+				if sc := call.Call.StaticCallee(); sc != nil && sc.String() == "encoding/json.Unmarshal" && len(call.Call.Args) == 2 && call.Call.Args[1] == ssa.Value(mi) {
+					src = call.Call.Args[0]
+					n++
+				}
+			}
+		}
+	}
+	if n == 1 {
+		return src
+	}
+	return nil
+}
 
 func callPath(cc *ssa.CallCommon, depth int, seen map[ssa.Value]bool) string {
 	var args []string
@@ -666,10 +795,31 @@ func ReachableFrom(fn *ssa.Function, from ssa.Instruction, target ssa.Instructio
 	for _, i := range cutInstrs {
 		cutI[i] = true
 	}
-	visited := map[*ssa.BasicBlock]bool{}
-	var stack []*ssa.BasicBlock
+	// a state is a block plus, for blocks that merge an error result and test it at once (see errMerge), the
+	// predecessor through which the block was entered: that predecessor decides which way the test goes
+	type state struct {
+		b    *ssa.BasicBlock
+		pred int
+	}
+	visited := map[state]bool{}
+	var stack []state
+	push := func(from *ssa.BasicBlock, s *ssa.BasicBlock) {
+		st := state{s, -1}
+		if em := errMergeOf(s); em != nil && from != nil {
+			for k, p := range s.Preds {
+				if p == from {
+					st.pred = k
+				}
+			}
+		}
+		if !visited[st] {
+			visited[st] = true
+			stack = append(stack, st)
+		}
+	}
 	// scan returns true if target found; pushes successors if block end reached
-	scan := func(b *ssa.BasicBlock, start int) bool {
+	scan := func(st state, start int) bool {
+		b := st.b
 		for i := start; i < len(b.Instrs); i++ {
 			in := b.Instrs[i]
 			if in == target {
@@ -679,20 +829,25 @@ func ReachableFrom(fn *ssa.Function, from ssa.Instruction, target ssa.Instructio
 				return false
 			}
 		}
+		em := errMergeOf(b)
 		for si, s := range b.Succs {
 			if cutE[Edge{b, si}] {
 				continue
 			}
-			if !visited[s] {
-				visited[s] = true
-				stack = append(stack, s)
+			if em != nil && st.pred >= 0 && st.pred < len(em.succ) {
+				// entering through this predecessor decides the test
+				if want := em.succ[st.pred]; want >= 0 && si != want {
+					continue
+				}
 			}
+			push(b, s)
 		}
 		return false
 	}
 	if from == nil {
-		visited[fn.Blocks[0]] = true
-		if scan(fn.Blocks[0], 0) {
+		st := state{fn.Blocks[0], -1}
+		visited[st] = true
+		if scan(st, 0) {
 			return true
 		}
 	} else {
@@ -703,18 +858,170 @@ func ReachableFrom(fn *ssa.Function, from ssa.Instruction, target ssa.Instructio
 				idx = i + 1
 			}
 		}
-		if scan(b, idx) {
+		if scan(state{b, -1}, idx) {
 			return true
 		}
 	}
 	for len(stack) > 0 {
-		b := stack[len(stack)-1]
+		st := stack[len(stack)-1]
 		stack = stack[:len(stack)-1]
-		if scan(b, 0) {
+		if scan(st, 0) {
 			return true
 		}
 	}
 	return false
+}
+
+// errMerge describes a block that merges a value from several predecessors (a phi) and branches on it at once, with
+// nothing but phis, spills of results and the comparison in between — the shape left by
+// `x, err := helper(...); if err != nil {…}` or `if !helper(...) {…}` once helper is expanded in place. The merged value
+// is an error compared with nil, or a boolean.
+type errMerge struct {
+	succ []int // per predecessor: the successor index that will be taken, or -1 when not known
+}
+
+var errMergeCache = map[*ssa.BasicBlock]*errMerge{}
+
+func errMergeOf(b *ssa.BasicBlock) *errMerge {
+	if em, ok := errMergeCache[b]; ok {
+		return em
+	}
+	var out *errMerge
+	defer func() { errMergeCache[b] = out }()
+	if e, cmp := errPhiTest(b); e != nil {
+		nilSucc := 0
+		if cmp.Op == token.NEQ {
+			nilSucc = 1
+		}
+		em := &errMerge{}
+		for _, ev := range e.Edges {
+			k := -1
+			switch x := rawStrip(ev).(type) {
+			case *ssa.Const:
+				if x.Value == nil {
+					k = nilSucc
+				}
+			case *ssa.Call:
+				if sc := x.Call.StaticCallee(); sc != nil && (sc.String() == "fmt.Errorf" || sc.String() == "errors.New") {
+					k = 1 - nilSucc
+				}
+			}
+			em.succ = append(em.succ, k)
+		}
+		out = em
+		return out
+	}
+	if bp, neg := boolPhiTest(b); bp != nil {
+		em := &errMerge{}
+		for _, ev := range bp.Edges {
+			k := -1
+			if c, ok := rawStrip(ev).(*ssa.Const); ok && c.Value != nil && c.Value.Kind() == constant.Bool {
+				val := constant.BoolVal(c.Value)
+				if neg {
+					val = !val
+				}
+				if val {
+					k = 0
+				} else {
+					k = 1
+				}
+			}
+			em.succ = append(em.succ, k)
+		}
+		out = em
+	}
+	return out
+}
+
+// mergePhiOf returns the phi the block's test depends on (error or boolean form).
+func mergePhiOf(b *ssa.BasicBlock) *ssa.Phi {
+	if e, _ := errPhiTest(b); e != nil {
+		return e
+	}
+	bp, _ := boolPhiTest(b)
+	return bp
+}
+
+// boolPhiTest recognises a block made of phis (and negations) that branches on one of its boolean phis.
+func boolPhiTest(b *ssa.BasicBlock) (*ssa.Phi, bool) {
+	if b == nil || len(b.Instrs) == 0 {
+		return nil, false
+	}
+	iff, ok := b.Instrs[len(b.Instrs)-1].(*ssa.If)
+	if !ok {
+		return nil, false
+	}
+	for _, in := range b.Instrs[:len(b.Instrs)-1] {
+		switch x := in.(type) {
+		case *ssa.Phi, *ssa.DebugRef:
+		case *ssa.UnOp:
+			if x.Op != token.NOT {
+				return nil, false
+			}
+		default:
+			return nil, false
+		}
+	}
+	v, neg := iff.Cond, false
+	for {
+		if u, ok := v.(*ssa.UnOp); ok && u.Op == token.NOT {
+			v, neg = u.X, !neg
+			continue
+		}
+		break
+	}
+	if ph, ok := v.(*ssa.Phi); ok && ph.Block() == b && len(ph.Edges) == len(b.Preds) {
+		return ph, neg
+	}
+	return nil, false
+}
+
+// errPhiTest recognises the block shape of errMerge and returns the error phi and the comparison.
+func errPhiTest(b *ssa.BasicBlock) (*ssa.Phi, *ssa.BinOp) {
+	if b == nil || len(b.Instrs) == 0 {
+		return nil, nil
+	}
+	iff, ok := b.Instrs[len(b.Instrs)-1].(*ssa.If)
+	if !ok {
+		return nil, nil
+	}
+	var cmp *ssa.BinOp
+	for _, in := range b.Instrs[:len(b.Instrs)-1] {
+		switch x := in.(type) {
+		case *ssa.Phi, *ssa.DebugRef:
+		case *ssa.BinOp:
+			cmp = x
+		case *ssa.Store:
+			if _, ok := x.Addr.(*ssa.Alloc); !ok {
+				return nil, nil
+			}
+		case *ssa.UnOp:
+			if _, ok := x.X.(*ssa.Alloc); !ok || x.Op != token.MUL {
+				return nil, nil
+			}
+		default:
+			return nil, nil
+		}
+	}
+	if cmp == nil || ssa.Value(cmp) != iff.Cond || (cmp.Op != token.EQL && cmp.Op != token.NEQ) {
+		return nil, nil
+	}
+	for _, pr := range [][2]ssa.Value{{cmp.X, cmp.Y}, {cmp.Y, cmp.X}} {
+		if c, ok := rawStrip(pr[1]).(*ssa.Const); ok && c.Value == nil {
+			x := rawStrip(pr[0])
+			if ld, ok := x.(*ssa.UnOp); ok && ld.Op == token.MUL && ld.Block() == b {
+				if src := LoadSource(ld); src != nil {
+					x = rawStrip(src)
+				}
+			}
+			if ph, ok := x.(*ssa.Phi); ok && ph.Block() == b && len(ph.Edges) == len(b.Preds) {
+				if n, isN := ph.Type().(*types.Named); isN && n.Obj().Pkg() == nil && n.Obj().Name() == "error" {
+					return ph, cmp
+				}
+			}
+		}
+	}
+	return nil, nil
 }
 
 // Returns lists the Return instructions of fn.
